@@ -164,7 +164,9 @@ func TestVerif_C06_Replay(t *testing.T) {
 			case got.CurStart != want.CurStart || got.CurPrev != want.CurPrev:
 				rep.Diverge(key, fmt.Sprintf("after call %d (%d,%s) the remembered request is (%d,%s), specification (%d,%s)", n+1, start, prev, got.CurStart, got.CurPrev, want.CurStart, want.CurPrev), b.X, want, got)
 			case fmt.Sprint(got.Queries) != fmt.Sprint(want.Queries):
-				rep.Diverge(key, fmt.Sprintf("call %d (%d,%s) queried the chain %v, specification %v", n+1, start, prev, got.Queries, want.Queries), b.X, want, got)
+				// which chain methods are asked (and in which order) is not
+				// part of the contract: recorded, not a divergence
+				rep.Count("query_pattern_differs", 1)
 			}
 			if got.Panic != "" || got.Ret != want.Ret || got.CurStart != want.CurStart || got.CurPrev != want.CurPrev {
 				break // the states have diverged: later steps are meaningless
@@ -176,6 +178,37 @@ func TestVerif_C06_Replay(t *testing.T) {
 		}
 		rep.Eval(key, map[string]interface{}{"behaviour": id})
 	}
+}
+
+// c06Barrier is a reusable barrier for n goroutines.
+type c06Barrier struct {
+	mu    sync.Mutex
+	cond  *sync.Cond
+	n     int
+	count int
+	gen   int
+}
+
+func newC06Barrier(n int) *c06Barrier {
+	b := &c06Barrier{n: n}
+	b.cond = sync.NewCond(&b.mu)
+	return b
+}
+
+func (b *c06Barrier) wait() {
+	b.mu.Lock()
+	gen := b.gen
+	b.count++
+	if b.count == b.n {
+		b.count = 0
+		b.gen++
+		b.cond.Broadcast()
+	} else {
+		for gen == b.gen {
+			b.cond.Wait()
+		}
+	}
+	b.mu.Unlock()
 }
 
 func TestVerif_C06_Concurrent(t *testing.T) {
@@ -192,6 +225,12 @@ func TestVerif_C06_Concurrent(t *testing.T) {
 
 	for run := 0; run < runs; run++ {
 		ch := &c06Chain{slow: true}
+		// plan: mode 0 = everyone notifies the same request (duplicates),
+		// mode 1 = small alphabet so that retries with the same previous
+		// entry meet the chain, mode 2 = increasing blocks, mode 3 = retry
+		// storm: after (s0, p) was processed everyone notifies the retried
+		// request (s1, p) which the chain confirms as current
+		mode := run % 4
 		// the chain's view for the whole run
 		var kind, cprev string
 		var cstart uint64
@@ -201,26 +240,43 @@ func TestVerif_C06_Concurrent(t *testing.T) {
 		case 1:
 			kind = "errStart"
 		default:
-			kind, cprev, cstart = "ok", entries[r.Intn(2)], uint64(1+r.Intn(6))
+			kind, cprev, cstart = "ok", entries[r.Intn(2)], uint64(2+r.Intn(5))
+		}
+		if mode == 3 && run%8 == 3 {
+			kind, cprev, cstart = "ok", entries[r.Intn(2)], uint64(2+r.Intn(5))
 		}
 		ch.set(kind, cprev, cstart)
 		tr.Reset(map[string]interface{}{"ans": map[string]interface{}{"kind": kind, "prev": cprev, "start": cstart}})
 		d := NewDeduplicator(ch)
 
-		// plan: mode 0 = everyone notifies the same request (duplicates),
-		// mode 1 = small alphabet so that retries with the same previous
-		// entry meet the chain, mode 2 = increasing blocks
-		mode := r.Intn(3)
 		type call struct {
 			start uint64
 			prev  string
 		}
+		notify := func(id int, c call) bool {
+			tr.Emit(map[string]interface{}{"event": "Call", "id": id, "start": c.start, "prev": c.prev})
+			ret, err := d.NotifyRelayEntryStarted(c.start, c.prev)
+			tr.Emit(map[string]interface{}{"event": "Return", "id": id, "ret": ret, "err": err != nil})
+			return ret
+		}
 		plans := make([][]call, workers)
 		same := call{uint64(1 + r.Intn(6)), entries[r.Intn(2)]}
+		if mode == 3 {
+			p := cprev
+			if p == "" {
+				p = entries[0]
+			}
+			s1 := cstart
+			if s1 < 2 {
+				s1 = 5
+			}
+			notify(9000, call{1 + uint64(r.Intn(int(s1-1))), p})
+			same = call{s1, p}
+		}
 		for w := range plans {
 			for c := 0; c < perWorker; c++ {
 				switch {
-				case mode == 0 && c == 0:
+				case (mode == 0 || mode == 3) && c == 0:
 					plans[w] = append(plans[w], same)
 				case mode == 2:
 					plans[w] = append(plans[w], call{uint64(1 + c*4 + r.Intn(4)), entries[r.Intn(3)]})
@@ -230,16 +286,18 @@ func TestVerif_C06_Concurrent(t *testing.T) {
 			}
 		}
 		var wg sync.WaitGroup
-		startLine := make(chan struct{})
+		bar := newC06Barrier(workers)
 		trues := make([]int, workers)
 		for w := 0; w < workers; w++ {
 			wg.Add(1)
 			go func(w int) {
 				defer wg.Done()
-				<-startLine
 				for c, pl := range plans[w] {
 					id := w*100 + c
+					// all Calls of a round are recorded first, then every
+					// goroutine invokes the method at the same moment
 					tr.Emit(map[string]interface{}{"event": "Call", "id": id, "start": pl.start, "prev": pl.prev})
+					bar.wait()
 					ret, err := d.NotifyRelayEntryStarted(pl.start, pl.prev)
 					tr.Emit(map[string]interface{}{"event": "Return", "id": id, "ret": ret, "err": err != nil})
 					if ret {
@@ -248,7 +306,6 @@ func TestVerif_C06_Concurrent(t *testing.T) {
 				}
 			}(w)
 		}
-		close(startLine)
 		wg.Wait()
 		n := 0
 		for _, x := range trues {
@@ -256,6 +313,7 @@ func TestVerif_C06_Concurrent(t *testing.T) {
 		}
 		rep.Eval(fmt.Sprintf("run%d/mode%d/%s", run, mode, kind), map[string]interface{}{"mode": mode, "chain": kind, "processed": n})
 		rep.Count("processed", n)
+		rep.Count(fmt.Sprintf("processed_mode%d", mode), n)
 		rep.Count("calls", workers*perWorker)
 	}
 	rep.Count("events", tr.N())
